@@ -40,6 +40,13 @@ pub open spec fn mlive(h: &Heap, m: &MapH) -> bool { maps(h).contains_key(mid(m)
 // Vec::remove panics when index >= len (R8)
 #[verifier::external_body] pub fn cell_remove(h: &mut Heap, v: &VecH, i: usize) -> (r: Primitive) requires live(old(h), v), i < vecs(old(h))[vid(v)].len()
     ensures vecs(final(h)) == vecs(old(h)).insert(vid(v), vecs(old(h))[vid(v)].remove(i as int)), r == vecs(old(h))[vid(v)][i as int], maps(final(h)) == maps(old(h)) { unimplemented!() }
+pub trait VerifCtx<T> { fn verif_ctx(self) -> Result<T, VErr>; }
+impl VerifCtx<Primitive> for Option<Primitive> { #[verifier::external_body] fn verif_ctx(self) -> (r: Result<Primitive, VErr>) ensures r is Ok <==> self is Some, r is Ok ==> Some(r->Ok_0) == self { unimplemented!() } }
+// Vec::pop: the last element, or None on an empty list
+#[verifier::external_body] pub fn cell_pop(h: &mut Heap, v: &VecH) -> (r: Option<Primitive>) requires live(old(h), v)
+    ensures vecs(old(h))[vid(v)].len() == 0 ==> r is None && vecs(final(h)) == vecs(old(h)),
+            vecs(old(h))[vid(v)].len() > 0 ==> r == Some(vecs(old(h))[vid(v)].last()) && vecs(final(h)) == vecs(old(h)).insert(vid(v), vecs(old(h))[vid(v)].drop_last()),
+            maps(final(h)) == maps(old(h)) { unimplemented!() }
 #[verifier::external_body] pub fn cell_push(h: &mut Heap, v: &VecH, x: Primitive) requires live(old(h), v)
     ensures vecs(final(h)) == vecs(old(h)).insert(vid(v), vecs(old(h))[vid(v)].push(x)), maps(final(h)) == maps(old(h)) { unimplemented!() }
 #[verifier::external_body] pub fn cell_clear(h: &mut Heap, v: &VecH) requires live(old(h), v)
@@ -167,6 +174,7 @@ def cells_pass(toks, log, what):
         ("CELL ( $h ) . reverse ( )", "cell_reverse ( heap , $h )"),
         ("CELL ( $h ) . remove ( $$i )", "cell_remove ( heap , $h , $$i )"),
         ("CELL ( $h ) . push ( $$e )", "cell_push ( heap , $h , $$e )"),
+        ("CELL ( $h ) . pop ( )", "cell_pop ( heap , $h )"),
         ("CELL ( $h ) . clear ( )", "cell_clear ( heap , $h )"),
         ("CELL ( $h ) . extend ( $$e )", "cell_extend ( heap , $h , $$e )"),
         ("CELL ( $h ) . to_vec ( )", "cell_snapshot ( heap , $h )"),
@@ -191,6 +199,7 @@ def arm_rules(name):
         Rule("R7", "len . try_into ( ) . with_context ( $$c ) ?", "usize_to_i32 ( len ) ?", why="usize -> i32 conversion"),
         Rule("R7", "result . try_into ( ) . with_context ( $$c ) ?", "usize_to_i32 ( result ) ?", why="usize -> i32 conversion"),
         Rule("R7", "( * i ) . try_into ( ) . with_context ( $$c ) ?", "i32_to_usize ( * i ) ?", why="i32 -> usize conversion"),
+        Rule("R3", ". with_context ( $$c ) ?", ". verif_ctx ( ) ?", why="Option/Result::with_context: None -> Err; text dropped"),
         Rule("R1", ". clone ( )", ". vclone ( )", why="clone of a value / of a handle (handle clone keeps the cell)"),
         Rule("R1", "if let Some ( ( result , _ ) ) = result", "if let Some ( result ) = result", why="(index, element) pair -> index"),
         Rule("R13", "vector ! ( raw $$e )", "Primitive :: Vector ( cell_new ( heap , $$e ) )", why="vector!(raw v) = Primitive::Vector(GcVector::new(v)): a new cell"),
